@@ -165,6 +165,10 @@ def oracle_set(ctx, o):
     if kind == "external":
         te = fh(o["theta_external_deg"])
         rep["theta_external_deg_after"] = te
+        if v < 0 and abs(te + v) <= 1e-3 and abs(v) > 1e-3:
+            ctx.violation("S5", f"{call}: the sign of the requested external angle is lost — the stored internal angle {shown!r} deg is the Snell-equivalent of "
+                          f"+{abs(v)!r} deg (read back through Snell: {te!r} deg), not of {v!r} deg", {"kind": "external_sign", "path": path}, rep)
+            return
         if abs(te - v) > 1e-3:   # accuracy of the Snell search itself belongs to C13; a missing / wrong conversion is off by tens of percent
             ctx.violation("S5", f"{call}: the stored internal angle {shown!r} deg corresponds to an external angle of {te!r} deg, not {v!r}",
                           {"kind": "external", "path": path}, rep)
@@ -231,6 +235,29 @@ def oracle_sweep(ctx, o):
             if d:
                 ctx.violation("S5", f"{call}: setup {j} differs from the setup constructed individually with {p1} = {v1!r} then {p2} = {v2!r}: "
                               f"(individual, swept) = {d}", {"kind": "sweep_individual", "path": p2}, dict(rep, differences=d))
+        # the swept setup against a setup constructed AFRESH from a configuration (SPDCConfig with the two values -> try_as_spdc; no sweep
+        # setter involved): configuration and direction-dependent observables (delta k, spectrum value at the centre)
+        fr = it.get("fresh") or {}
+        if "cfg" in fr:
+            d = cfg_diff(fr["cfg"], cfg)
+            if d:
+                ctx.violation("S5", f"{call}: setup {j} differs from the setup built afresh from a configuration with {p1} = {v1!r}, {p2} = {v2!r}: "
+                              f"(fresh, swept) = {d}", {"kind": "sweep_fresh_config", "path": p2}, dict(rep, differences=d))
+            a_, b_ = it.get("obs") or {}, fr.get("obs") or {}
+            if a_.get("pp_sign") == b_.get("pp_sign"):     # a fresh configuration re-derives the poling sign; compare like with like
+                if a_.get("delta_k") and b_.get("delta_k"):
+                    ka, kb = [fh(x) for x in a_["delta_k"]], [fh(x) for x in b_["delta_k"]]
+                    if any(abs(x - y) > 1.0 + 1e-6 * max(abs(x), abs(y)) for x, y in zip(ka, kb)):
+                        ctx.violation("S5", f"{call}: setup {j}: delta k at the centre frequencies is {ka} rad/m, the setup built afresh from the same "
+                                      f"configuration gives {kb} (stale derived state in the swept setup?)", {"kind": "sweep_fresh_delta_k", "path": p1},
+                                      dict(rep, swept=ka, fresh=kb))
+                if a_.get("jsi") and b_.get("jsi"):
+                    ja, jb = fh(a_["jsi"]), fh(b_["jsi"])
+                    if abs(ja - jb) > 1e-6 * max(abs(ja), abs(jb)):
+                        ctx.violation("S5", f"{call}: setup {j}: spectrum value {ja!r}, the setup built afresh from the same configuration gives {jb!r}",
+                                      {"kind": "sweep_fresh_jsi", "path": p1}, dict(rep, swept=ja, fresh=jb))
+        elif fr:
+            ctx.count("sweep:fresh_config_not_constructible")
         rd = it.get("read") or {}
         for p, w in ((p1, v1), (p2, v2)):
             key, kind = PATHS[p]
@@ -416,7 +443,31 @@ def correspondence(ctx, obs, label, limit=None):
 
 
 # ------------------------------------------------------------------------------------------------ pipeline
+def replay(ctx):
+    """./check C18 --replay <file>: re-run the recorded input (same seed and tier -> the same generated inputs) through the harness and
+    the property oracle, and report only the recorded signature.  Records of broken proof obligations / correspondence cases have no
+    input of their own: for those the full check is the replay."""
+    rec = json.load(open(ctx.replay))
+    sig = rec.get("signature", {})
+    if rec.get("stage") in ("S3", "S4") or sig.get("kind") in ("proof", "model_mismatch"):
+        ctx.log("REPLAY: the record is a broken proof obligation / correspondence case; running the full check")
+        ctx.replay = None
+        ctx.seed, ctx.tier = int(rec.get("seed", ctx.seed)), rec.get("tier", ctx.tier)
+        return run(ctx)
+    ctx.seed, ctx.tier = int(rec.get("seed", ctx.seed)), rec.get("tier", ctx.tier)
+    binp = build_harness(ctx)
+    obs = run_harness(ctx, binp, ["c18", ctx.seed, 2 if ctx.tier == "quick" else 8, 6 if ctx.tier == "quick" else 16])
+    oracle(ctx, obs)
+    hits = [v for v in ctx.violations if v["sig"] == sig]
+    ctx.log(f"REPLAY {ctx.replay}: signature {sig} {'REPRODUCES' if hits else 'does not reproduce'} ({len(hits)} matching of {len(ctx.violations)} violations)")
+    ctx.violations = hits
+    ctx.cov["rule"] = "replay of one recorded input (seed and tier of the record)"
+    return finish(ctx)
+
+
 def run(ctx):
+    if getattr(ctx, "replay", None):
+        return replay(ctx)
     binp = build_harness(ctx)
     msgs, spans = regen(ctx, ["sweep", "poling", "grid"])
     ctx.cov["translated_spans"] = {k: v for k, v in spans.items() if k.split("::")[0] in ("sweep", "spdc_iter", "beam", "spdc_obj", "config", "utils", "math")}
@@ -452,7 +503,7 @@ def run(ctx):
         "only the named field changes (all 25 paths)": "proved over the generated table (record-level frame) + measured on SPDC::as_config",
         "named field = requested value in the path's unit (all 25 paths)": "proved against the hand-pinned unit table + measured (4 decimals)",
         "THz = 1e12 cycles per second (3 paths)": "proved (stored 2 pi v 1e12 rad/s; shown as c/(v 1e12) nm) + measured — was violated before /repo c033754 (finding F8, fixed)",
-        "external angle stored as Snell-equivalent internal angle": "proved against the C13 Snell contract (C18_external_angle_partial: |sin e - n(th) sin th| <= optimiser residual, view shows th, read-back within r/cos M); convergence of the simplex and the read-back measured per input",
+        "external angle stored as Snell-equivalent internal angle": "both signs (the sign was lost before /repo 6fcae16, finding F17, fixed); proved against the C13 Snell contract (C18_external_angle_partial: stored sign(e) th, | |sin e| - n(sign(e) th) sin th | <= optimiser residual, view shows it); convergence of the simplex and the read-back measured per input",
         "poling period keeps its derived sign": "proved on every base (poled: apodization kept; unpoled: poling created) modulo the compute_sign oracle + measured — "
                                                 "on an unpoled base the setter did nothing before /repo 7f110fb (finding F9, fixed)",
         "unknown paths rejected": "proved (get_setter p = None <-> p not in the documented list) + measured",
